@@ -76,8 +76,16 @@ int main(int argc, char** argv) {
         ReplayIn in; if (!in.load(argv[2])) return 2;
         int n = in.i("n"), nb = in.i("nb"); size_t N = in.i("N"); int np = in.i("np");
         W w = build(n, nb, N, np); std::string fn = in.kv["file"][0];
+        FILE* fo0 = fopen((std::string(argv[3]) + ".src0").c_str(), "w");
         { HDF5File h(fn, *w.ps, w.rdtn, *w.z, np, 1e-4, 2.7e6);
           for (auto& op : in.kv["ops"]) {
+            if (op == "mut") {      // the objects move on between two records: remember what they held, then give the field a new spectrum and the RF map a shorter block of new kicks
+                int NM0 = w.rdtn->getNMax(); float* sp = const_cast<float*>(w.rdtn->getCSRSpectrum());
+                fprintf(fo0, "src0:csrspec %d", nb * NM0); for (int i = 0; i < nb * NM0; i++) fprintf(fo0, " %.9g", sp[i]); fprintf(fo0, "\n");
+                fprintf(fo0, "src0:kicks %zu", 2 * w.kicks->size()); for (auto& k : *w.kicks) fprintf(fo0, " %.9g %.9g", k[0], k[1]); fprintf(fo0, "\n");
+                for (int i = 0; i < nb * NM0; i++) sp[i] = 0.5f * sp[i] + 1.0f + 0.01f * i;
+                w.kicks->resize(2); (*w.kicks)[0] = {7.5f, 8.5f}; (*w.kicks)[1] = {9.5f, 10.5f};
+                continue; }
             if (op == "ps_all") h.append(**w.ps, 0.25f, HDF5File::AppendType::All); else if (op == "ps_def") h.append(**w.ps, 0.5f, HDF5File::AppendType::Defaults);
             else if (op == "ef") h.append(w.rdtn); else if (op == "wkm") h.append(w.wkm); else if (op == "tracks") h.appendTracks(*w.tracks); else if (op == "rf") h.appendRFKicks(*w.kicks); else if (op == "padded") h.appendPadded(w.wake);
           } }
@@ -89,6 +97,8 @@ int main(int argc, char** argv) {
         auto dumpf = [&](const char* name, const float* q, size_t k) { fprintf(fo, "%s %zu", name, k); for (size_t i = 0; i < k; i++) fprintf(fo, " %.9g", q[i]); fprintf(fo, "\n"); };
         dumpf("src:axis0", p->getAxis(0)->data(), n); dumpf("src:axis1", p->getAxis(1)->data(), n); dumpf("src:csrspec", w.rdtn->getCSRSpectrum(), (size_t)nb * NM); dumpf("src:proj", p->_projection.data(), 2 * nb * n);
         dumpf("src:wkm_force", w.wkm->getForce(), (size_t)nb * n); dumpf("src:data", p->getData(), (size_t)nb * n * n);
+        { std::vector<float> kk; for (auto& k : *w.kicks) { kk.push_back(k[0]); kk.push_back(k[1]); } dumpf("src:kicks", kk.data(), kk.size()); }
+        fclose(fo0); { FILE* f0 = fopen((std::string(argv[3]) + ".src0").c_str(), "r"); char buf[1 << 16]; while (f0 && fgets(buf, sizeof buf, f0)) fputs(buf, fo); if (f0) fclose(f0); unlink((std::string(argv[3]) + ".src0").c_str()); }
         fclose(fo); unlink(fn.c_str()); return 0;
     }
     return 2;
